@@ -2,7 +2,7 @@
    compositions (signal over background, product, source weighting), the
    end-to-end chain and the multi-dataset sum — real-number reading. *)
 From Coq Require Import Reals ZArith List Bool Lra Lia Arith Permutation.
-From Sky Require Import Num NumR G_llh M_Llh M_LlhPipe S_Llh S_LlhPipe P_LlhK P_LlhValue.
+From Sky Require Import Num NumR G_llh M_Llh M_LlhPipe S_Llh S_LlhPipe P_LlhK P_LlhValue P_LlhC1.
 Import ListNotations.
 Open Scope R_scope.
 
@@ -46,6 +46,53 @@ Section C.
         assert (Eq : - (ns / N) = opa - 1) by lra.
         rewrite Eq. rewrite taylor_value_at_threshold. f_equal. lra. }
       rewrite HL. lra.
+  Qed.
+
+
+  (* the same for ANY event selection that drops only events of ratio 0 (it may
+     keep some of them): events tagged with the selection's decision *)
+  Theorem value_zero_ratio_selection opa N ns (l : list (R * bool)) :
+    0 < opa -> N <> 0 -> ns / N <= 1 - opa ->
+    (forall p, In p l -> snd p = false -> fst p = 0) ->
+    evaluate_value Nm opa N ns (map fst l)
+    = evaluate_value Nm opa N ns (map fst (filter snd l)).
+  Proof.
+    intros Hopa HN Hns Hz. rewrite !value_is_manual. unfold logLambda_manual.
+    induction l as [|[r k] l IH]; [reflexivity|].
+    assert (IH' := IH (fun p Hp => Hz p (or_intror Hp))). clear IH.
+    cbn [filter snd]. destruct k.
+    - cbn [map length fst]. unfold Rsum in *. cbn [fold_right].
+      rewrite !S_INR. lra.
+    - assert (E : r = 0) by (apply (Hz (r, false)); [now left|reflexivity]). subst r.
+      cbn [map length fst]. unfold Rsum in *. cbn [fold_right].
+      rewrite S_INR.
+      assert (HL : Lam (opa - 1) (ns * Xof N 0) = ln (1 - ns / N)).
+      { unfold Lam, Xof. replace (ns * ((0 - 1) / N)) with (- (ns / N)) by (field; exact HN).
+        destruct (Rlt_dec (opa - 1) (- (ns / N))) as [Hs|Hu]; [f_equal; lra|].
+        assert (Eq : - (ns / N) = opa - 1) by lra.
+        rewrite Eq. rewrite taylor_value_at_threshold. f_equal. lra. }
+      rewrite HL. lra.
+  Qed.
+
+
+  (* the guard is sharp: beyond it (1-threshold < ns/N < 1) a zero-ratio event
+     sits in the Taylor regime, where the expansion is strictly above the
+     logarithm, so removing it LOWERS the value *)
+  Theorem value_zero_ratio_removal_guard_sharp opa N ns (Rs : list R) :
+    0 < opa -> 0 < N -> 1 - opa < ns / N -> ns < N ->
+    evaluate_value Nm opa N ns Rs < evaluate_value Nm opa N ns (0 :: Rs).
+  Proof.
+    intros Hopa HN Hbeyond Hns. rewrite !value_is_manual. unfold logLambda_manual.
+    cbn [map length]. unfold Rsum. cbn [fold_right]. rewrite S_INR.
+    assert (Hq : ns / N < 1).
+    { apply (Rmult_lt_reg_r N); [exact HN|].
+      unfold Rdiv. rewrite Rmult_assoc, Rinv_l by lra. lra. }
+    assert (HL : ln (1 - ns / N) < Lam (opa - 1) (ns * Xof N 0)).
+    { unfold Lam, Xof. replace (ns * ((0 - 1) / N)) with (- (ns / N)) by (field; lra).
+      destruct (Rlt_dec (opa - 1) (- (ns / N))) as [Hs|Hu]; [lra|].
+      replace (1 - ns / N) with (1 + - (ns / N)) by lra.
+      apply Taylor_above_log; lra. }
+    lra.
   Qed.
 
   (* ---------------------------------------------------------------- *)
